@@ -49,6 +49,8 @@ type Client struct {
 	dialContextFunc     func(ctx context.Context, address string) (net.Conn, error)
 	asProtocolErrorFunc func(data []byte) error
 	parseResponseFunc   func(data []byte) (packet.Response, error)
+	// packetMaxLen is maximum length in bytes that valid packet of the protocol used by client can be
+	packetMaxLen int
 
 	mu      sync.RWMutex
 	address string
@@ -88,6 +90,7 @@ func defaultClient(conf ClientConfig) *Client {
 		// TCP is our default protocol
 		asProtocolErrorFunc: packet.AsTCPErrorPacket,
 		parseResponseFunc:   packet.ParseTCPResponse,
+		packetMaxLen:        tcpPacketMaxLen,
 	}
 
 	if conf.WriteTimeout > 0 {
@@ -134,6 +137,7 @@ func NewRTUClientWithConfig(conf ClientConfig) *Client {
 	client := defaultClient(conf)
 	client.asProtocolErrorFunc = asRTUErrorPacketWithCRC
 	client.parseResponseFunc = packet.ParseRTUResponseWithCRC
+	client.packetMaxLen = rtuPacketMaxLen
 	return client
 }
 
@@ -272,7 +276,7 @@ func (c *Client) do(ctx context.Context, data []byte, expectedLen int) ([]byte, 
 			return nil, &ClientError{Err: err}
 		}
 		total += n
-		if total > tcpPacketMaxLen {
+		if total > c.packetMaxLen {
 			return nil, &ErrPacketTooLong
 		}
 		// check if we have exactly the error packet. Error packets are shorter than regulars packets
